@@ -1,6 +1,7 @@
 package main
 
 import (
+	"go/types"
 	"bufio"
 	"encoding/json"
 	"flag"
@@ -29,6 +30,7 @@ type Bounded struct {
 	Name  string `json:"name"`
 	Cmd   string `json:"cmd"`
 	Bound string `json:"bound"`
+	Quick bool   `json:"quick,omitempty"` // cheap enough to run in the quick tier as well
 }
 
 type PropConfig struct {
@@ -100,6 +102,19 @@ func main() {
 		os.Exit(runSelftest(os.Args[2:]))
 	case "replay":
 		os.Exit(runReplayCmd(os.Args[2:]))
+	case "gotest":
+		// govc gotest <pkg dir relative to /repo> <test file under /verif> <TestName>: runs the test
+		// inside the package of /repo's working tree through an overlay (nothing is written to /repo)
+		if len(os.Args) < 5 {
+			fmt.Fprintln(os.Stderr, "usage: govc gotest <pkgdir> <file> <Test>")
+			os.Exit(2)
+		}
+		failed, out := runGoTest(os.Args[2], filepath.Join(verifDir, os.Args[3]), "", os.Args[4])
+		fmt.Print(out)
+		if failed || !strings.Contains(out, "ok") {
+			os.Exit(1)
+		}
+		os.Exit(0)
 	default:
 		fmt.Fprintln(os.Stderr, "unknown command")
 		os.Exit(2)
@@ -203,6 +218,22 @@ func verifyFunctions(P *Program, funcs []PropFunc, solver *Solver, coverSolver *
 			genErrs = append(genErrs, fmt.Sprintf("%s: generator failure: %v", pf.Key, err))
 			continue
 		}
+		if ct := P.contractFor(fn); ct != nil && len(ct.Mods) > 0 && !ct.Trusted && !ct.ModNothing {
+			bad, checkable := P.checkModFrame(fn, ct, func(mt *types.Map) (string, string) {
+				dk, vk, _, _ := v.mapKeys(mt)
+				return dk, vk
+			}, func(t types.Type) []string {
+				var ks []string
+				v.leafKeys(t, func(k, s string) { ks = append(ks, k) })
+				return ks
+			})
+			if checkable {
+				for _, b := range bad {
+					genErrs = append(genErrs, pf.Key+": frame is not justified: "+b)
+				}
+				assumptions["frame of "+shortKey(pf.Key)+" (fields/kinds clauses) checked syntactically against the body"] = true
+			}
+		}
 		for _, e := range v.specErrors {
 			genErrs = append(genErrs, pf.Key+": contract error: "+e)
 		}
@@ -233,7 +264,8 @@ func verifyFunctions(P *Program, funcs []PropFunc, solver *Solver, coverSolver *
 						maxLine = l // argument expressions of a multi-line call come after its first line
 					}
 					if c, ok := in.(*ssa.Call); ok {
-						if sc := c.Call.StaticCallee(); sc != nil && sc.Name() == pf.UntilCall {
+						sc := c.Call.StaticCallee()
+						if (sc != nil && sc.Name() == pf.UntilCall) || (c.Call.IsInvoke() && c.Call.Method.Name() == pf.UntilCall) {
 							if untilLine == 0 || maxLine < untilLine {
 								untilLine = maxLine
 							}
@@ -267,7 +299,7 @@ func verifyFunctions(P *Program, funcs []PropFunc, solver *Solver, coverSolver *
 			rep.Obligations++
 			rep.ByKind[o.Kind]++
 		}
-		if ct := P.contractFor(fn); ct != nil && len(ct.Ensures) > 0 && nEns < len(ct.Ensures) {
+		if ct := P.contractFor(fn); ct != nil && len(ct.Ensures) > 0 && nEns < countChecked(ct.Ensures) {
 			genErrs = append(genErrs, fmt.Sprintf("%s: %d ensures clauses but only %d ensures obligations were generated (no reachable return?)", pf.Key, len(ct.Ensures), nEns))
 		}
 		if rep.Obligations == 0 {
@@ -547,6 +579,12 @@ func runCheck(id, tier string) int {
 		for _, b := range pc.Bounded {
 			boundedOut = append(boundedOut, runBounded(id, b, &violationLines, &violations))
 		}
+	} else {
+		for _, b := range pc.Bounded {
+			if b.Quick {
+				boundedOut = append(boundedOut, runBounded(id, b, &violationLines, &violations))
+			}
+		}
 	}
 	if total == 0 && len(genErrs) == 0 {
 		report("(generator)", "generator: no obligations at all", "zero obligations", nil, nil, "")
@@ -596,4 +634,14 @@ func runCheck(id, tier string) int {
 
 func sortReports(r []fnReport) {
 	sort.Slice(r, func(i, j int) bool { return r[i].Key < r[j].Key })
+}
+
+func countChecked(cs []Clause) int {
+	n := 0
+	for _, c := range cs {
+		if !c.Assumed {
+			n++
+		}
+	}
+	return n
 }
